@@ -14,7 +14,9 @@ RULE = ("ent -> t81: every Huffman- or arithmetic-coded DCT stream the real comp
         "files written by the real compressor must equal, byte for byte, the Lean writer's output when it is configured like jcmarker.c.  "
         "progfile: whole progressive Huffman files (jpeg_simple_progression or a seeded script; every coefficient kind) must equal, byte for byte, "
         "Model.ProgHuff.encodeFile: the model's DC/AC first/refinement event streams, its symbol statistics, jpeg_gen_optimal_table as modelled "
-        "in Model.Huff (the function C19's theorems are about), and the per-scan DHT/DRI/SOS layout")
+        "in Model.Huff (the function C19's theorems are about), and the per-scan DHT/DRI/SOS layout.  arifile: whole arithmetic-coded files "
+        "(sequential, jpeg_simple_progression, seeded progressive and sequential scripts) must equal Model.ArithEnc.encodeFile: the binarisation of "
+        "jcarith.c as a pure function to (bin, decision) lists and the QM coder (carry into the buffered byte, stacked 0xFF, pending zeros, termination)")
 TRUSTED = ["Model.T81 (decoder) and Model.T81Enc (writer) are written from the text of T.81, not from libjpeg-turbo; each is checked "
            "against the other and against the real codec on every generated stream",
            "the reader decodes arithmetic-coded streams with an executable model of the QM decoder (Model/Arith.lean, no theorems about it); lossless streams are outside this check (C02)"]
@@ -30,6 +32,8 @@ def classify(op, R):
         return "seqfile:nc%s:%sx%s:ri%s" % (p[7], p[5], p[6], "0" if p[4] == "0" else "1")
     if p[0] == "progfile":
         return "progfile:nc%s:%sx%s:ri%s:k%s:%s" % (p[7], p[5], p[6], "0" if p[4] == "0" else "1", p[8], "simple" if p[9] == "0" else "script")
+    if p[0] == "arifile":
+        return "arifile:nc%s:%sx%s:ri%s:k%s:m%s" % (p[7], p[5], p[6], "0" if p[4] == "0" else "1", p[8], p[9])
     if p[0] == "t81enc":
         return "t81enc:f%s:hv%s:ri%s" % (p[5], "".join(p[6:]), "0" if p[4] == "0" else "1")
     if p[0] in ("t81", "t81c"):
@@ -68,6 +72,15 @@ def gen_ops(rng, tier):
         w, h = (rng.randint(1, 70), rng.randint(1, 50)) if kind != 6 else (rng.randint(60, 200), rng.randint(40, 120))
         ops.append("progfile %d %d %d %d %d %d %d %d %d" % (rng.randrange(1 << 30), w, h, rng.choice([0, 0, 1, 2, 3, 7, 8, 9, 50]), hs, vs, nc, kind,
                                                           rng.choice([0, 0, rng.randrange(1, 1 << 30), rng.randrange(1, 1 << 30), rng.randrange(1, 1 << 30)])))
+    # whole arithmetic-coded files, byte for byte: jcarith.c (binarisation of DC/AC coefficients in sequential, first and refinement
+    # scans; QM coder with carry propagation, stacked 0xFF bytes, termination) and the DAC/SOS layout, against Model/ArithEnc.lean
+    for i in range(700 if big else 130):
+        nc = rng.choice([1, 3, 3, 3])
+        hs, vs = rng.choice([(1, 1), (2, 1), (2, 2), (1, 2), (4, 1), (1, 4), (2, 1), (2, 2)]) if nc == 3 else (1, 1)
+        kind = rng.choice([0, 0, 0, 1, 2, 3, 4, 5, 6, 7])
+        mode = rng.choice([4, 4, 5, 7, 7, 8])
+        ops.append("arifile %d %d %d %d %d %d %d %d %d %d" % (rng.randrange(1 << 30), rng.randint(1, 70), rng.randint(1, 50), rng.choice([0, 0, 1, 2, 3, 7, 8, 9, 50]),
+                                                             hs, vs, nc, kind, mode, rng.randrange(1, 1 << 30)))
     # more than 0x7FFF consecutive end-of-band blocks: the forced emit_eobrun
     for i in range(3 if big else 1):
         ops.append("progfile %d %d %d 0 1 1 1 5 %d" % (rng.randrange(1 << 30), 1456 + 8 * rng.randrange(8), 1456 + 8 * rng.randrange(8), 0 if i == 0 else rng.randrange(1, 1 << 30)))
